@@ -474,7 +474,7 @@ func (c *Check) WhoCalls(target string, allowed []string, why string) bool {
 	c.Sites += len(c.W.ModuleFuncs())
 	key := target
 	desc := "callers of " + target + " are within {" + strings.Join(allowed, ", ") + "}: " + why
-	if c.W.Fn(target) == nil {
+	if c.W.Fn(target) == nil && !strings.HasPrefix(target, "iface:") {
 		c.Undecided("whocalls", key, desc, "target function not found")
 		return false
 	}
